@@ -114,7 +114,7 @@ def go_test(work, module, pkg, run, inject, env=None, race=False, timeout=900, e
     if binary_only:
         cmd += ["-c", "-o", binary_only]
     else:
-        cmd += ["-run", run, "-timeout", "%ds" % timeout]
+        cmd += ["-v", "-run", run, "-timeout", "%ds" % timeout]
     if extra_args:
         cmd += extra_args
     cmd.append(pkg)
